@@ -2,7 +2,7 @@
    argument tokens in, an outcome and result tokens out.  All calls into the
    models are made here, in Gallina; the hand-written OCaml only tokenises. *)
 From Coq Require Import String Ascii.
-From Dryoc Require Import Lib.Outcome Impl.Blake2b Impl.Kdf Impl.Poly1305 Impl.Hashes Impl.SecretBox Impl.SecretStream Impl.Scalarmult Impl.PwhashStr.
+From Dryoc Require Import Lib.Outcome Impl.Blake2b Impl.Kdf Impl.Poly1305 Impl.Hashes Impl.SecretBox Impl.SecretStream Impl.Scalarmult Impl.PwhashStr Impl.Serde.
 Open Scope Z_scope.
 
 Inductive tok :=
@@ -155,6 +155,18 @@ Definition run (op : string) (args : list tok) : option (outcome (list tok)) :=
     | [TI alg; TB ops; TB mem; TB salt; TB hash] =>
         let '(t, m) := PwhashStr.convert_costs (le_val ops) (le_val mem) in Some (Ok [TB (PwhashStr.to_string alg t m salt hash)])
     | _ => None end
+  else if String.eqb op "serde.visit_seq" then
+    match args with [TI n; TB elems] => Some (out1 (SerdeImpl.visit_seq (Z.to_nat n) elems)) | _ => None end
+  else if String.eqb op "serde.visit_bytes" then
+    match args with [TI n; TB v] => Some (out1 (SerdeImpl.visit_bytes (Z.to_nat n) v)) | _ => None end
+  else if String.eqb op "bytes.secretbox.from_bytes" then
+    match args with [TB v] => Some (omap (fun p => [TB (fst p); TB (snd p)]) (SerdeImpl.secretbox_from_bytes v)) | _ => None end
+  else if String.eqb op "bytes.box.from_bytes" then
+    match args with [TB v] => Some (omap (fun p => let '(e, t, d) := p in [match e with Some x => TB x | None => TN end; TB t; TB d]) (SerdeImpl.box_from_bytes v)) | _ => None end
+  else if String.eqb op "bytes.box.from_sealed_bytes" then
+    match args with [TB v] => Some (omap (fun p => let '(e, t, d) := p in [match e with Some x => TB x | None => TN end; TB t; TB d]) (SerdeImpl.box_from_sealed_bytes v)) | _ => None end
+  else if String.eqb op "bytes.signed.from_bytes" then
+    match args with [TB v] => Some (omap (fun p => [TB (fst p); TB (snd p)]) (SerdeImpl.signed_from_bytes v)) | _ => None end
   else if String.eqb op "stream.init" then
     match args with
     | [TB header; TB key] => Some (Ok (st_toks (init_c header key)))
